@@ -466,6 +466,12 @@ func c13(c *Ctx) {
 	c.c13BanStored()
 	c.c13BanReference()
 	c.c13OperFlagPair(f)
+	for _, name := range []string{"ircserver.(*IRCServer).verifyCaptcha", "ircserver.(*IRCServer).verifyCaptchaNonEmpty"} {
+		if fi := c.P.Func(name); fi != nil && fi.Body() != nil {
+			c.errorDiscipline("C13.E11", fi, "a captcha that does not decode or verify is accepted")
+			c.errorDispositions("C13.E11", []string{"ircserver"}, func(fn string) bool { return fn == name }, "a captcha that does not decode or verify is accepted")
+		}
+	}
 }
 
 // freshChannel: at vertex v, ch was created by this function on the edge where the look-up in i.channels failed.
